@@ -70,6 +70,11 @@ type Case struct {
 	// Syntax chooses the presentation of the selection sets in the document (see syntax.go):
 	// 0 = one field per response key; otherwise the seed of the un-collected presentation.
 	Syntax uint64 `json:"syntax,omitempty"`
+	// LazyIdle: every other call of the idle handler (the 1st, 3rd, …) returns without having
+	// delivered anything — as api-fu's own handler does when a resolver chains Go tasks by hand, and
+	// tick-based test handlers do; the executor has to keep idling (wait, settleSerialPromises).
+	// Rounds counts the delivering calls only, so the model's run is the same.
+	LazyIdle bool `json:"lazy_idle,omitempty"`
 	// CancelAt = k > 0: the k-th resolver called cancels the request's context (see cancel.go).
 	CancelAt int    `json:"cancel_at,omitempty"`
 	Note     string `json:"note,omitempty"`
